@@ -20,6 +20,7 @@ type vBook struct {
 	futureSeen int
 	idle       int       // the first `idle` requests for the future find no news yet
 	onFuture   func(int) // called with the number of each request for the future
+	onFetch    func(int) // called with the index of each page being fetched, while the fetch is in flight
 }
 
 type vPage struct {
@@ -64,6 +65,9 @@ func (p *vPage) GetNext(ctx context.Context) (IPage, error) {
 
 func (b *vBook) fetch(idx int) (*vPage, error) {
 	b.fetches++
+	if b.onFetch != nil {
+		b.onFetch(idx)
+	}
 	if idx == b.failNext {
 		b.failNext = -1 // transient failure
 		return nil, errVerifPage
@@ -405,4 +409,66 @@ func VerifC19_StreamIdleThenDry() {
 	}
 	verif.Assert("page_arriving_within_the_grace_period_is_delivered", cursor == 2)
 	verif.Assert("ended_only_when_dry", p.IsRunningDry())
+}
+
+// VerifC19_StoppedWhileFetching: Stop / Close / cancellation lands while the
+// fetch of page j is in flight (after the fetcher has looked at its context):
+// from then on nothing more is yielded, whether the caller asks HasNext first
+// or calls GetNext directly.
+func VerifC19_StoppedWhileFetching() {
+	np := verif.Len("pages", 2, 3)
+	b := &vBook{failNext: -1, failIter: -1, nPresent: np}
+	total := 0
+	for i := 0; i < np; i++ {
+		c := verif.Len("count", 0, 2)
+		var items []int
+		for k := 0; k < c; k++ {
+			items = append(items, total)
+			total++
+		}
+		b.pages = append(b.pages, items)
+	}
+	ctx, cancel := context.WithCancel(context.Background())
+	defer cancel()
+	p, err := NewCollectionPaginator(ctx, func(context.Context) (IPage, error) {
+		fp, e := b.fetch(0)
+		if e != nil {
+			return nil, e
+		}
+		return fp, nil
+	})
+	verif.Assert("constructor", err == nil && p != nil)
+	stopAt := verif.Len("stopWhileFetchingPage", 1, np-1)
+	how := verif.Choice("how", 3)
+	stopped := false
+	b.onFetch = func(idx int) {
+		if idx == stopAt && !stopped {
+			stopped = true
+			switch how {
+			case 0:
+				p.Stop()()
+			case 1:
+				_ = p.Close()
+			case 2:
+				cancel()
+			}
+		}
+	}
+	bare := verif.Bool("getNextWithoutHasNext")
+	yieldedAfterStop := 0
+	for k := 0; k <= total+1; k++ {
+		if !bare && !p.HasNext() {
+			break
+		}
+		_, err := p.GetNext()
+		if err != nil {
+			break
+		}
+		if stopped {
+			yieldedAfterStop++
+		}
+	}
+	verif.Assume(stopped)
+	verif.Assert("nothing_is_yielded_after_the_stop", yieldedAfterStop == 0)
+	verif.Assert("no_next_after_the_stop", !p.HasNext())
 }
